@@ -105,6 +105,37 @@ def run(ctx):
         case, out = meta[i]
         ctx.disagree('utility kernel %s' % case.get('kernel'), case, 'Utils model differs', out)
     spectral(ctx, LA)
+    ties(ctx, U)
+
+
+def ties(ctx, U):
+    """entries whose magnitude EQUALS theta |a_ii| (resp. theta max|a_ik|) are kept: the definitions drop with a strict '<'"""
+    import pyamg.gallery as gal
+    for name, A, th in (('poisson-1d', gal.poisson((9,), format='csr'), 0.5), ('poisson-2d', gal.poisson((4, 5), format='csr'), 0.25),
+                        ('stencil-9pt', gal.stencil_grid(np.array([[-1., -2, -1], [-2, 12, -2], [-1, -2, -1]]), (5, 5), format='csr'), 1.0 / 6.0 * 1.0)):
+        D = A.toarray()
+        for lump in (False, True):
+            B = A.copy()
+            U.filter_matrix_rows(B, th, diagonal=True, lump=lump)
+            want = D.copy()
+            for i in range(D.shape[0]):
+                thr = th * abs(D[i, i])
+                for j in range(D.shape[1]):
+                    if j != i and abs(D[i, j]) < thr:
+                        if lump:
+                            want[i, i] += D[i, j]
+                        want[i, j] = 0.0
+            ctx.count('oracle:filter-ties')
+            if not np.array_equal(B.toarray(), want):
+                ctx.fail('filter_matrix_rows/diagonal/ties/lump=%s' % lump, '%s, theta=%r: an entry with |a_ij| = theta |a_ii| is not below the threshold and must stay' % (name, th),
+                         dict(matrix=name, theta=th, lump=lump))
+        for nm, f, ax in (('rows', U.filter_matrix_rows, 1), ('columns', U.filter_matrix_columns, 0)):
+            M = np.array([[4., -2, 1, 0], [-2, 4, -1, 2], [1, -1, 2, 0.5], [0, 2, 0.5, 1]])
+            got = f(sp.csr_array(M), 0.5).toarray()
+            want = np.where(np.abs(M) >= 0.5 * np.abs(M).max(axis=ax, keepdims=True), M, 0.0)
+            ctx.count('oracle:filter-ties')
+            if not np.array_equal(got, want):
+                ctx.fail('filter_matrix_%s/ties' % nm, 'theta=0.5: an entry equal to theta times the maximum must stay', dict(matrix=M.tolist(), theta=0.5))
 
 
 def oracle(ctx, U, LA, D, rng, base):
@@ -217,7 +248,7 @@ def oracle(ctx, U, LA, D, rng, base):
         for i in range(n):
             if rng.random() < 0.3:
                 Dd[i, i] = 0.0
-        th_d = rng.choice([0.3, 0.6, 0.9])
+        th_d = rng.choice([0.25, 0.5, 0.25, 0.5, 0.3, 0.6, 0.9])   # dyadic thresholds: entries exactly ON the threshold are kept
         Ad_ = sp.csr_array(Dd)
         U.filter_matrix_rows(Ad_, th_d, diagonal=True, lump=lump)
         want = Dd.copy()
